@@ -1,7 +1,7 @@
 CONSTANTS
   Mode = "tcp"
   NStart = 2
-  LsnOf <- Fresh
+  NLsn = 2
   NShut = 1
   NConns = 1
   MaxReq = 1
